@@ -34,6 +34,7 @@ type Frame struct {
 	panicking        bool
 	panicVal         interface{}
 	phitemps         []Value
+	lib              bool // executing on behalf of library code (nearest /repo function is not a harness function)
 }
 
 type Thread struct {
@@ -280,6 +281,21 @@ func (e *Exec) storeInto(T types.Type, addr *Value, v Value) {
 	}
 }
 
+// noteModel records that a callee was replaced by a contract model (reported in the evidence).
+func (e *Exec) noteModel(fn *ssa.Function) {
+	if e.fnSeen[fn] {
+		return
+	}
+	e.fnSeen[fn] = true
+	if fn.Pkg != nil && e.P.isRepoPkg(fn.Pkg) {
+		return // vh* harness API
+	}
+	if fn.Name() == "init" {
+		return // dependency package initialisers are not run (their constant stores are read directly)
+	}
+	e.funcsSeen["model:"+fn.String()] = true
+}
+
 // ---- frames ----
 
 func (e *Exec) callSSA(caller *Frame, fn *ssa.Function, args []Value, env []Value) Value {
@@ -294,10 +310,19 @@ func (e *Exec) callSSA(caller *Frame, fn *ssa.Function, args []Value, env []Valu
 	if !e.fnSeen[fn] {
 		e.fnSeen[fn] = true
 		if fn.Pkg != nil && e.P.isRepoPkg(fn.Pkg) {
-			e.funcsSeen[fn.String()] = true
+			if e.P.isHarnessFn(fn) {
+				e.funcsSeen["harness:"+fn.String()] = true
+			} else {
+				e.funcsSeen[fn.String()] = true
+			}
 		}
 	}
 	fr := &Frame{e: e, caller: caller, fn: fn}
+	if fn.Pkg != nil && e.P.isRepoPkg(fn.Pkg) {
+		fr.lib = !e.P.isHarnessFnCached(fn)
+	} else if caller != nil {
+		fr.lib = caller.lib
+	}
 	fr.idx = e.P.valueIndex(fn)
 	fr.env = make([]Value, len(fr.idx))
 	fr.block = fn.Blocks[0]
@@ -453,7 +478,11 @@ func (fr *Frame) visit(instr ssa.Instruction) int {
 	switch instr := instr.(type) {
 	case *ssa.DebugRef:
 	case *ssa.UnOp:
-		fr.env[fr.idx[instr]] = e.unop(instr, fr.get(instr.X))
+		x := fr.get(instr.X)
+		if instr.Op == token.MUL && fr.lib && e.ss != nil && e.ss.race.active {
+			e.raceAccess(fr, x.(PtrV), false, instr)
+		}
+		fr.env[fr.idx[instr]] = e.unop(instr, x)
 	case *ssa.BinOp:
 		fr.env[fr.idx[instr]] = e.binop(instr.Op, instr.X.Type(), fr.get(instr.X), fr.get(instr.Y))
 	case *ssa.Call:
@@ -499,6 +528,9 @@ func (fr *Frame) visit(instr ssa.Instruction) int {
 	case *ssa.Send:
 		e.chanSend(fr.get(instr.Chan).(*ChanObj), fr.get(instr.X))
 	case *ssa.Store:
+		if fr.lib && e.ss != nil && e.ss.race.active {
+			e.raceAccess(fr, fr.get(instr.Addr).(PtrV), true, instr)
+		}
 		e.store(instr.Addr.Type().Underlying().(*types.Pointer).Elem(), fr.get(instr.Addr).(PtrV), fr.get(instr.Val))
 	case *ssa.If:
 		succ := 1
@@ -675,11 +707,13 @@ func (e *Exec) call(caller *Frame, fn Value, args []Value) Value {
 			e.rtPanic("nil", "call of nil function")
 		}
 		if h := e.P.intrinsic(fn); h != nil {
+			e.noteModel(fn)
 			return h(e, caller, fn, args)
 		}
 		return e.callSSA(caller, fn, args, nil)
 	case *Closure:
 		if h := e.P.intrinsic(fn.fn); h != nil {
+			e.noteModel(fn.fn)
 			return h(e, caller, fn.fn, args)
 		}
 		return e.callSSA(caller, fn.fn, args, fn.env)
